@@ -360,4 +360,897 @@ theorem dry_spawnOne {s : S} {j : JobId} {c : SpecId} (hd : DryTok s (some j)) (
       obtain ⟨par, p1, p2⟩ := b c' h0' hc''
       exact ⟨par, p1, by rw [spawnOne_jobs_ne s j c c' hcn]; exact p2⟩
 
+
+/-! ## part 4: `_done_job_main_thread` (dry run) -/
+
+theorem dry_exempt {s : S} (j : JobId) (hd : DryTok s none) : DryTok s (some j) :=
+  { hd with lb := fun i _ he => hd.lb i (by simp) he }
+
+theorem cntPend_zero_of_noKids {s : S} {j : JobId} (h : noKids s j) : cntPend s j = 0 := by
+  unfold cntPend
+  apply cntTo_zero_of_forall
+  intro c hc
+  unfold kidPend
+  have := h c hc
+  simp [this]
+
+theorem dry_spawnFold {j : JobId} (cs : List SpecId) (s : S) (hd : DryTok s (some j)) (htk : tk s j = 0)
+    (hp : pend s j) (hlt : j < s.next) :
+    DryTok (cs.foldl (fun s c => spawnOne s j c) s) (some j) ∧
+    tk (cs.foldl (fun s c => spawnOne s j c) s) j = 0 ∧
+    j < (cs.foldl (fun s c => spawnOne s j c) s).next ∧
+    (cs.foldl (fun s c => spawnOne s j c) s).jobs j = s.jobs j ∧
+    cntPend (cs.foldl (fun s c => spawnOne s j c) s) j = cntPend s j + cs.length := by
+  induction cs generalizing s with
+  | nil => exact ⟨hd, htk, hlt, rfl, rfl⟩
+  | cons c cs ih =>
+    have hjn : j ≠ s.next := Nat.ne_of_lt hlt
+    have d1 := dry_spawnOne (c := c) hd htk hp hlt
+    have htk1 : tk (spawnOne s j c) j = 0 := by
+      rw [tk_spawnOne, htk]; have : ¬ s.next = j := fun e => hjn e.symm
+      simp [this]
+    have hj1 : (spawnOne s j c).jobs j = s.jobs j := spawnOne_jobs_ne s j c j hjn
+    have hp1 : pend (spawnOne s j c) j := by unfold pend; rw [hj1]; exact hp
+    obtain ⟨a, b, d, e, f⟩ := ih (spawnOne s j c) d1 htk1 hp1 (Nat.lt_succ_of_lt hlt)
+    refine ⟨a, b, d, by rw [List.foldl_cons, e, hj1], ?_⟩
+    rw [List.foldl_cons, f, spawnOne_cnt]
+    simp only [if_true, List.length_cons]
+    omega
+
+theorem fq_setWaiting (s : S) (j : JobId) (n : Nat) : Fq s (setJob s j fun js => { js with waiting := n }) := by
+  refine ⟨rfl, rfl, rfl, ?_, ?_, ?_, ?_⟩ <;>
+  · intro i; simp only [setJob]; split <;> rfl
+
+theorem dry_setWaiting {s : S} {j : JobId} (n : Nat) (hd : DryTok s (some j))
+    (hn : (s.jobs j).evalFailed = false → cntPend s j ≤ n) :
+    DryTok (setJob s j fun js => { js with waiting := n }) none := by
+  refine (fq_setWaiting s j n).dryW hd ?_
+  intro i _ he
+  by_cases hij : i = j
+  · subst hij; simp only [setJob, if_true]; exact hn he
+  · simp only [setJob, hij, if_false]
+    exact hd.lb i (fun e => hij (Option.some.inj e)) he
+
+theorem fq_fields (s : S) (cse : List CseEntry) (et : List Nat) :
+    Fq s { s with cse := cse, evalTable := et } :=
+  ⟨rfl, rfl, rfl, fun _ => rfl, fun _ => rfl, fun _ => rfl, fun _ => rfl⟩
+
+theorem fq_record (p : Prog) (s : S) (j : JobId) (b : Bool) : Fq s (record p s j b) := by
+  unfold record; dsimp only; split
+  · exact fq_fields s _ s.evalTable
+  · exact Fq.refl s
+
+theorem record_waiting (p : Prog) (s : S) (j : JobId) (b : Bool) (i : JobId) :
+    ((record p s j b).jobs i).waiting = (s.jobs i).waiting := by
+  unfold record; dsimp only; split <;> rfl
+
+theorem releaseIf_dry (p : Prog) (s : S) (j : JobId) (h : s.holds j = false) : releaseIf p s j = s := by
+  unfold releaseIf; simp [h]
+
+/-- `_done_job_main_thread` in a dry run; `s` is the state with the event already taken off -/
+theorem doneJob_dry (p : Prog) (s : S) (j : JobId) (f : Bool) (hd : DryTok s none) (hholds : s.holds j = false)
+    (htk : tk s j = 0) (hp : pend s j) (hlt : j < s.next) (hnk : noKids s j) :
+    DryTok (doneJob p s j f) none := by
+  rw [doneJob_eq, releaseIf_dry p s j hholds]
+  unfold doneRest
+  have f1 : Fq s (if (!(s.jobs j).wasCached && (spec p s j).prov) = true then
+      { s with evalTable := (spec p s j).key :: s.evalTable } else s) ∧
+      ∀ i, ((if (!(s.jobs j).wasCached && (spec p s j).prov) = true then
+      { s with evalTable := (spec p s j).key :: s.evalTable } else s).jobs i).waiting = (s.jobs i).waiting := by
+    split
+    · exact ⟨fq_fields s s.cse _, fun _ => rfl⟩
+    · exact ⟨Fq.refl s, fun _ => rfl⟩
+  have hsp : spec p (if (!(s.jobs j).wasCached && (spec p s j).prov) = true then
+      { s with evalTable := (spec p s j).key :: s.evalTable } else s) j = spec p s j := by
+    split <;> rfl
+  generalize (if (!(s.jobs j).wasCached && (spec p s j).prov) = true then
+      { s with evalTable := (spec p s j).key :: s.evalTable } else s) = s2 at f1 hsp
+  obtain ⟨f1, w1⟩ := f1
+  have d2 : DryTok s2 none := f1.dry w1 hd
+  have htk2 : tk s2 j = 0 := by rw [f1.tk]; exact htk
+  have hp2 : pend s2 j := (f1.pendIff j).mpr hp
+  have hlt2 : j < s2.next := by rw [f1.next]; exact hlt
+  have hnk2 : noKids s2 j := (f1.noKids j).mpr hnk
+  dsimp only
+  split
+  · exact dry_enqueue _ j d2 rfl (by intro k; simp) htk2 hp2 hlt2
+      (fun c hc hpc _ => absurd hpc (hnk2 c hc)) (fun ⟨_, h⟩ => by simp at h)
+      (fun _ c hc hpc => absurd hpc (hnk2 c hc))
+  · unfold spawn
+    dsimp only
+    obtain ⟨a, b, c, d, e⟩ := dry_spawnFold (spec p s2 j).children s2 (dry_exempt j d2) htk2 hp2 hlt2
+    rw [cntPend_zero_of_noKids hnk2] at e
+    have d4 := dry_setWaiting (spec p s2 j).children.length a (fun _ => by omega)
+    split
+    · rename_i hnil
+      have hcs : (spec p s2 j).children = [] := by simpa using hnil
+      rw [hcs] at d4 ⊢
+      simp only [List.foldl_nil, List.length_nil] at d4 ⊢
+      have fw := fq_setWaiting s2 j 0
+      exact dry_enqueue _ j d4 rfl (by intro k; simp) (by rw [fw.tk]; exact htk2) ((fw.pendIff j).mpr hp2)
+        (by rw [fw.next]; exact hlt2)
+        (fun c hc hpc _ => absurd hpc ((fw.noKids j).mpr hnk2 c hc)) (fun ⟨_, h⟩ => by simp at h)
+        (fun _ c hc hpc => absurd hpc ((fw.noKids j).mpr hnk2 c hc))
+    · exact d4
+
+
+/-! ## part 5: settling (dry run) -/
+
+theorem status_cases (st : Status) : st = Status.pending ∨ st = Status.resolved ∨ st = Status.rejected := by
+  cases st <;> simp
+
+theorem ResEff.dry {s s' : S} {j : JobId} (h : ResEff s s' j) (hd : DryTok s none) (htk : tk s j = 0)
+    (hp : pend s j) (hlt : j < s.next)
+    (hk : ∀ c, c < s.next → (s.jobs c).parent = some j → (s.jobs c).status = Status.resolved) :
+    DryTok s' none := by
+  have hpend : ∀ i, pend s' i ↔ (pend s i ∧ i ≠ j) := by
+    intro i; unfold pend; rw [h.st]
+    by_cases e : i = j
+    · simp [e]
+    · simp [e]
+  -- the parent (if any) is pending, has no event queued unless its evaluation failed
+  have hparfact : ∀ par, (s.jobs j).parent = some par → (s.jobs par).evalFailed = false → tk s par = 0 ∧ pend s par :=
+    fun par hpar he => hd.par par j hlt hpar hp he
+  have hparne : ∀ par, (s.jobs j).parent = some par → par ≠ j := by
+    intro par hpar e; have := hd.parlt hlt hpar; subst e; exact Nat.lt_irrefl _ this
+  have htk' : ∀ i, tk s' i = tk s i ∨
+      (tk s' i = tk s i + 1 ∧ (s.jobs j).parent = some i ∧ (s.jobs i).evalFailed = false ∧ (s.jobs i).waiting - 1 = 0 ∧
+        Ev.resolve i ∈ s'.queue) := by
+    intro i
+    rcases h.queue with q | ⟨par, q1, q2, q3, q⟩
+    · left; unfold tk; rw [q]
+    · by_cases e : par = i
+      · subst e; right
+        refine ⟨?_, q1, q2, q3, by rw [q]; simp⟩
+        unfold tk; rw [q]; simp [List.countP_append, evJob]
+      · left; unfold tk; rw [q]; simp [List.countP_append, evJob, e]
+  have hmem : ∀ e, e ∈ s'.queue → e ∈ s.queue ∨ ∃ par, e = Ev.resolve par ∧ (s.jobs j).parent = some par ∧
+      (s.jobs par).evalFailed = false ∧ (s.jobs par).waiting - 1 = 0 := by
+    intro e he
+    rcases h.queue with q | ⟨par, q1, q2, q3, q⟩
+    · rw [q] at he; exact Or.inl he
+    · rw [q] at he
+      rcases List.mem_append.mp he with a | a
+      · exact Or.inl a
+      · exact Or.inr ⟨par, List.mem_singleton.mp a, q1, q2, q3⟩
+  have hmono : ∀ e, e ∈ s.queue → e ∈ s'.queue := by
+    intro e he
+    rcases h.queue with q | ⟨par, _, _, _, q⟩
+    · rw [q]; exact he
+    · rw [q]; exact List.mem_append_left _ he
+  -- the lower bound after the step, for every job
+  have hlb : ∀ i, (s.jobs i).evalFailed = false → cntPend s' i ≤ (s'.jobs i).waiting := by
+    intro i he
+    have h0 := hd.lb i (by simp) he
+    rw [h.wt]
+    unfold cntPend at h0 ⊢
+    rw [h.next]
+    have hkid : ∀ c, c ≠ j → kidPend s i c = kidPend s' i c := by
+      intro c hcj; unfold kidPend; rw [h.par, h.st]; simp [hcj]
+    by_cases hpar : (s.jobs j).parent = some i
+    · simp only [hpar, if_true]
+      have hf : kidPend s i j = true := by unfold kidPend; simp [hpar]; exact hp
+      have hg : kidPend s' i j = false := by unfold kidPend; rw [h.st]; simp
+      have := cntTo_flip (f := kidPend s i) (g := kidPend s' i) (n := s.next) j hlt hkid hf hg
+      omega
+    · simp only [hpar, if_false]
+      have : cntTo (kidPend s' i) s.next = cntTo (kidPend s i) s.next := by
+        apply cntTo_congr
+        intro c _
+        by_cases hcj : c = j
+        · subst hcj; unfold kidPend; rw [h.par]; simp [hpar]
+        · exact (hkid c hcj).symm
+      omega
+  refine ⟨by rw [h.pj]; exact hd.pj, fun i => by rw [h.tw]; exact hd.tw i, ?_, ?_, ?_, ?_, ?_, ?_, ?_⟩
+  · intro i
+    obtain ⟨a, b, c⟩ := hd.tok i
+    rw [h.next]
+    rcases htk' i with e | ⟨e, e1, e2, _, _⟩
+    · rw [e]
+      refine ⟨a, fun hnp => ?_, c⟩
+      by_cases hij : i = j
+      · subst hij; exact htk
+      · exact b (fun hpi => hnp ((hpend i).mpr ⟨hpi, hij⟩))
+    · obtain ⟨t0, pp⟩ := hparfact i e1 e2
+      rw [e, t0]
+      refine ⟨by omega, fun hnp => absurd ((hpend i).mpr ⟨pp, hparne i e1⟩) hnp, fun hn => ?_⟩
+      exact absurd (Nat.lt_trans (hd.parlt hlt e1) hlt) (Nat.not_lt.mpr hn)
+  · intro i c hc hpc hpp he
+    rw [h.next] at hc; rw [h.par] at hpc; rw [h.ef] at he
+    obtain ⟨hpp0, hcj⟩ := (hpend c).mp hpp
+    have hij : i ≠ j := by
+      intro e; subst e
+      have := hk c hc hpc; unfold pend at hpp0; rw [hpp0] at this; simp at this
+    obtain ⟨t0, pp⟩ := hd.par i c hc hpc hpp0 he
+    refine ⟨?_, (hpend i).mpr ⟨pp, hij⟩⟩
+    rcases htk' i with e | ⟨_, e1, e2, e3, _⟩
+    · rw [e]; exact t0
+    · -- `resolve i` was queued: then `i` waits for nobody, but `c` is still pending
+      exfalso
+      have hl := hlb i e2
+      rw [h.wt] at hl
+      simp only [e1, if_true, e3] at hl
+      have hz : cntPend s' i = 0 := Nat.le_zero.mp hl
+      unfold cntPend at hz
+      rw [h.next] at hz
+      have := cntTo_zero_forall hz c hc
+      unfold kidPend at this
+      rw [h.par] at this
+      simp [hpc] at this
+      exact this hpp
+  · intro i hq
+    have hq' : Ev.exec i ∈ s.queue ∨ ∃ f, Ev.done i f ∈ s.queue := by
+      rcases hq with a | ⟨f, a⟩
+      · rcases hmem _ a with b | ⟨par, b, _⟩
+        · exact Or.inl b
+        · simp at b
+      · rcases hmem _ a with b | ⟨par, b, _⟩
+        · exact Or.inr ⟨f, b⟩
+        · simp at b
+    intro c hc hpc
+    rw [h.next] at hc; rw [h.par] at hpc
+    exact hd.pre i hq' c hc hpc
+  · intro i c hc hpc hs
+    rw [h.next] at hc; rw [h.par] at hpc; rw [h.st] at hs
+    rw [h.ef]
+    by_cases hcj : c = j
+    · simp [hcj] at hs
+    · simp only [hcj, if_false] at hs; exact hd.rej i c hc hpc hs
+  · intro i _ he
+    rw [h.ef] at he; exact hlb i he
+  · intro i hi c hc hpc
+    rw [h.next] at hc; rw [h.par] at hpc
+    rw [h.st]
+    by_cases hcj : c = j
+    · simp [hcj]
+    · simp only [hcj, if_false]
+      have hold : ((s.jobs i).status = Status.resolved ∨ Ev.resolve i ∈ s.queue) ∨ i = j ∨
+          ((s.jobs j).parent = some i ∧ (s.jobs i).evalFailed = false ∧ (s.jobs i).waiting - 1 = 0) := by
+        rcases hi with a | a
+        · rw [h.st] at a
+          by_cases hij : i = j
+          · exact Or.inr (Or.inl hij)
+          · simp only [hij, if_false] at a; exact Or.inl (Or.inl a)
+        · rcases hmem _ a with b | ⟨par, b, b1, b2, b3⟩
+          · exact Or.inl (Or.inr b)
+          · simp at b; subst b; exact Or.inr (Or.inr ⟨b1, b2, b3⟩)
+      rcases hold with a | a | ⟨a1, a2, a3⟩
+      · exact hd.rk i a c hc hpc
+      · subst a; exact hk c hc hpc
+      · -- all children of `i` are resolved: none pending (count), none rejected (`evalFailed` is false)
+        have hl := hlb i a2
+        rw [h.wt] at hl
+        simp only [a1, if_true, a3] at hl
+        have hz : cntPend s' i = 0 := Nat.le_zero.mp hl
+        unfold cntPend at hz
+        rw [h.next] at hz
+        have hnp := cntTo_zero_forall hz c hc
+        unfold kidPend at hnp
+        rw [h.par, h.st] at hnp
+        simp [hpc, hcj] at hnp
+        rcases status_cases (s.jobs c).status with e | e | e
+        · exact absurd e hnp
+        · exact e
+        · have := hd.rej i c hc hpc e; rw [a2] at this; simp at this
+  · obtain ⟨a, b⟩ := hd.chain
+    refine ⟨by rw [h.par]; exact a, ?_⟩
+    intro c h0 hc
+    rw [h.next] at hc
+    obtain ⟨par, p1, p2⟩ := b c h0 hc
+    exact ⟨par, p1, by rw [h.par]; exact p2⟩
+
+
+theorem RejEff.dry {s s' : S} {j : JobId} (h : RejEff s s' j) (hd : DryTok s none) (htk : tk s j = 0)
+    (hp : pend s j) (hlt : j < s.next)
+    (hk : ∀ c, c < s.next → (s.jobs c).parent = some j → pend s c → (s.jobs j).evalFailed = true) :
+    DryTok s' none := by
+  have hpend : ∀ i, pend s' i ↔ (pend s i ∧ i ≠ j) := by
+    intro i; unfold pend; rw [h.st]
+    by_cases e : i = j
+    · simp [e]
+    · simp [e]
+  have hparne : ∀ par, (s.jobs j).parent = some par → par ≠ j := by
+    intro par hpar e; have := hd.parlt hlt hpar; subst e; exact Nat.lt_irrefl _ this
+  have htk' : ∀ i, tk s' i = tk s i ∨
+      (tk s' i = tk s i + 1 ∧ (s.jobs j).parent = some i ∧ (s.jobs i).evalFailed = false) := by
+    intro i
+    rcases h.queue with q | ⟨par, q1, q2, q⟩
+    · left; unfold tk; rw [q]
+    · by_cases e : par = i
+      · subst e; right
+        refine ⟨?_, q1, q2⟩
+        unfold tk; rw [q]; simp [List.countP_append, evJob]
+      · left; unfold tk; rw [q]; simp [List.countP_append, evJob, e]
+  have hmem : ∀ e, e ∈ s'.queue → e ∈ s.queue ∨ ∃ par, e = Ev.reject par := by
+    intro e he
+    rcases h.queue with q | ⟨par, _, _, q⟩
+    · rw [q] at he; exact Or.inl he
+    · rw [q] at he
+      rcases List.mem_append.mp he with a | a
+      · exact Or.inl a
+      · exact Or.inr ⟨par, List.mem_singleton.mp a⟩
+  have hefF : ∀ i, (s'.jobs i).evalFailed = false → ¬ (s.jobs j).parent = some i ∧ (s.jobs i).evalFailed = false := by
+    intro i he
+    rw [h.ef] at he
+    by_cases hpar : (s.jobs j).parent = some i
+    · simp [hpar] at he
+    · simp only [hpar, if_false] at he; exact ⟨hpar, he⟩
+  refine ⟨by rw [h.pj]; exact hd.pj, fun i => by rw [h.tw]; exact hd.tw i, ?_, ?_, ?_, ?_, ?_, ?_, ?_⟩
+  · intro i
+    obtain ⟨a, b, c⟩ := hd.tok i
+    rw [h.next]
+    rcases htk' i with e | ⟨e, e1, e2⟩
+    · rw [e]
+      refine ⟨a, fun hnp => ?_, c⟩
+      by_cases hij : i = j
+      · subst hij; exact htk
+      · exact b (fun hpi => hnp ((hpend i).mpr ⟨hpi, hij⟩))
+    · obtain ⟨t0, pp⟩ := hd.par i j hlt e1 hp e2
+      rw [e, t0]
+      refine ⟨by omega, fun hnp => absurd ((hpend i).mpr ⟨pp, hparne i e1⟩) hnp, fun hn => ?_⟩
+      exact absurd (Nat.lt_trans (hd.parlt hlt e1) hlt) (Nat.not_lt.mpr hn)
+  · intro i c hc hpc hpp he
+    rw [h.next] at hc; rw [h.par] at hpc
+    obtain ⟨hnpar, he0⟩ := hefF i he
+    obtain ⟨hpp0, hcj⟩ := (hpend c).mp hpp
+    have hij : i ≠ j := by
+      intro e; subst e
+      have := hk c hc hpc hpp0; rw [he0] at this; simp at this
+    obtain ⟨t0, pp⟩ := hd.par i c hc hpc hpp0 he0
+    refine ⟨?_, (hpend i).mpr ⟨pp, hij⟩⟩
+    rcases htk' i with e | ⟨_, e1, _⟩
+    · rw [e]; exact t0
+    · exact absurd e1 hnpar
+  · intro i hq
+    have hq' : Ev.exec i ∈ s.queue ∨ ∃ f, Ev.done i f ∈ s.queue := by
+      rcases hq with a | ⟨f, a⟩
+      · rcases hmem _ a with b | ⟨par, b⟩
+        · exact Or.inl b
+        · simp at b
+      · rcases hmem _ a with b | ⟨par, b⟩
+        · exact Or.inr ⟨f, b⟩
+        · simp at b
+    intro c hc hpc
+    rw [h.next] at hc; rw [h.par] at hpc
+    exact hd.pre i hq' c hc hpc
+  · intro i c hc hpc hs
+    rw [h.next] at hc; rw [h.par] at hpc; rw [h.st] at hs
+    rw [h.ef]
+    by_cases hcj : c = j
+    · subst hcj; simp [hpc]
+    · simp only [hcj, if_false] at hs
+      have := hd.rej i c hc hpc hs
+      split
+      · rfl
+      · exact this
+  · intro i _ he
+    obtain ⟨hnpar, he0⟩ := hefF i he
+    rw [h.wt]
+    have : cntPend s' i = cntPend s i := by
+      unfold cntPend
+      rw [h.next]
+      apply cntTo_congr
+      intro c _
+      unfold kidPend
+      rw [h.par, h.st]
+      by_cases hcj : c = j
+      · subst hcj; simp [hnpar]
+      · simp [hcj]
+    rw [this]; exact hd.lb i (by simp) he0
+  · intro i hi c hc hpc
+    rw [h.next] at hc; rw [h.par] at hpc
+    have hold : (s.jobs i).status = Status.resolved ∨ Ev.resolve i ∈ s.queue := by
+      rcases hi with a | a
+      · rw [h.st] at a
+        by_cases hij : i = j
+        · simp [hij] at a
+        · simp only [hij, if_false] at a; exact Or.inl a
+      · rcases hmem _ a with b | ⟨par, b⟩
+        · exact Or.inr b
+        · simp at b
+    have := hd.rk i hold c hc hpc
+    rw [h.st]
+    by_cases hcj : c = j
+    · subst hcj; unfold pend at hp; rw [hp] at this; simp at this
+    · simp only [hcj, if_false]; exact this
+  · obtain ⟨a, b⟩ := hd.chain
+    refine ⟨by rw [h.par]; exact a, ?_⟩
+    intro c h0 hc
+    rw [h.next] at hc
+    obtain ⟨par, p1, p2⟩ := b c h0 hc
+    exact ⟨par, p1, by rw [h.par]; exact p2⟩
+
+
+/-! ## part 7: the handlers in a dry run -/
+
+theorem checkPending_nil (p : Prog) (s : S) (h : s.pendingLimits = []) : checkPending p s = s := by
+  unfold checkPending
+  rw [h]
+  simp only [scanPending, List.map_nil, List.append_nil]
+  cases s
+  simp_all
+
+theorem finalize_nil (p : Prog) (s : S) (j : JobId) (h : s.pendingJobs = []) : finalize p s j = s := by
+  unfold finalize lookupPending
+  rw [h]; simp
+
+theorem lookupPending_nil (s : S) (k : Nat × Nat) (h : s.pendingJobs = []) : lookupPending s k = none := by
+  unfold lookupPending; rw [h]; rfl
+
+theorem fq_cached (s : S) (j : JobId) : Fq s (setJob s j fun js => { js with wasCached := true }) := by
+  refine ⟨rfl, rfl, rfl, ?_, ?_, ?_, ?_⟩ <;>
+  · intro i; simp only [setJob]; split <;> rfl
+
+theorem cached_waiting (s : S) (j i : JobId) :
+    ((setJob s j fun js => { js with wasCached := true }).jobs i).waiting = (s.jobs i).waiting := by
+  simp only [setJob]; split <;> rfl
+
+theorem dry_cachedExit (p : Prog) (s : S) (j : JobId) (ev : Ev) (hev : (∃ f, ev = Ev.done j f) ∨ ev = Ev.reject j)
+    (hd : DryTok s none) (hpl : s.pendingLimits = []) (htk : tk s j = 0) (hp : pend s j) (hlt : j < s.next)
+    (hnk : noKids s j) :
+    DryTok (enqueue (checkPending p (setJob s j fun js => { js with wasCached := true })) ev) none := by
+  have hpl1 : (setJob s j fun js => { js with wasCached := true }).pendingLimits = [] := hpl
+  rw [checkPending_nil p _ hpl1]
+  have fq := fq_cached s j
+  have d1 := fq.dry (cached_waiting s j) hd
+  have hnk1 : noKids (setJob s j fun js => { js with wasCached := true }) j := (fq.noKids j).mpr hnk
+  refine dry_enqueue ev j d1 ?_ ?_ (by rw [fq.tk]; exact htk) ((fq.pendIff j).mpr hp) hlt
+    (fun c hc hpc _ => absurd hpc (hnk1 c hc)) (fun _ => hnk1) (fun _ c hc hpc => absurd hpc (hnk1 c hc))
+  · rcases hev with ⟨f, rfl⟩ | rfl <;> rfl
+  · intro k; rcases hev with ⟨f, rfl⟩ | rfl <;> simp
+
+/-- `_exec_job_main_thread` in a dry run -/
+theorem execJob_dry (p : Prog) (hdr : p.dryrun = true) (s : S) (j : JobId) (hd : DryTok s none)
+    (hpl : s.pendingLimits = []) (htk : tk s j = 0) (hp : pend s j) (hlt : j < s.next) (hnk : noKids s j) :
+    DryTok (execJob p s j) none := by
+  unfold execJob
+  dsimp only
+  have hnone : (if optedIn (spec p s j) = true then lookupPending s ((spec p s j).key, (spec p s j).ctx) else none) = none := by
+    split
+    · exact lookupPending_nil s _ hd.pj
+    · rfl
+  rw [hnone]
+  dsimp only
+  split
+  · rename_i isErr _
+    exact dry_cachedExit p s j _ (by cases isErr <;> simp) hd hpl htk hp hlt hnk
+  · exact dry_cachedExit p s j _ (Or.inl ⟨true, rfl⟩) hd hpl htk hp hlt hnk
+  · exact dry_cachedExit p s j _ (Or.inl ⟨false, rfl⟩) hd hpl htk hp hlt hnk
+  · simp only [hdr, Bool.not_true, Bool.false_and, Bool.false_eq_true, if_false, if_true]
+    split
+    · exact dry_enqueue _ j hd rfl (by intro k; simp) htk hp hlt
+        (fun c hc hpc _ => absurd hpc (hnk c hc)) (fun ⟨_, h⟩ => by simp at h) (fun h => by simp at h)
+    · exact hd
+
+/-- `_resolve_job_main_thread` in a dry run -/
+theorem resolveJob_dry (p : Prog) (s : S) (j : JobId) (hd : DryTok s none) (htk : tk s j = 0) (hp : pend s j)
+    (hlt : j < s.next)
+    (hk : ∀ c, c < s.next → (s.jobs c).parent = some j → (s.jobs c).status = Status.resolved) :
+    DryTok (resolveJob p s j) none := by
+  unfold resolveJob
+  dsimp only
+  have f0 := fq_record p s j false
+  have d0 := f0.dry (record_waiting p s j false) hd
+  generalize record p s j false = s0 at f0 d0
+  have eff := resEff s0 j
+  generalize (notifyParentResolved (setJob s0 j fun js => { js with status := Status.resolved }) j) = s2 at eff
+  have d2 := eff.dry d0 (by rw [f0.tk]; exact htk) ((f0.pendIff j).mpr hp) (by rw [f0.next]; exact hlt)
+    (fun c hc hpc => by rw [f0.next] at hc; rw [f0.par] at hpc; rw [f0.st]; exact hk c hc hpc)
+  rw [d2.tw j]
+  simp only [List.foldl_nil]
+  rw [finalize_nil p s2 j d2.pj]
+  exact d2
+
+/-- `_reject_job_main_thread` in a dry run -/
+theorem rejectJob_dry (p : Prog) (s : S) (j : JobId) (hd : DryTok s none) (hholds : s.holds j = false)
+    (htk : tk s j = 0) (hp : pend s j) (hlt : j < s.next)
+    (hk : ∀ c, c < s.next → (s.jobs c).parent = some j → pend s c → (s.jobs j).evalFailed = true) :
+    DryTok (rejectJob p s j) none := by
+  rw [rejectJob_eq, releaseIf_dry p s j hholds]
+  unfold rejectRest
+  dsimp only
+  have f0 := fq_record p s j true
+  have d0 := f0.dry (record_waiting p s j true) hd
+  generalize record p s j true = s0 at f0 d0
+  have eff := rejEff s0 j
+  generalize (notifyParentRejected (setJob s0 j fun js => { js with status := Status.rejected }) j) = s2 at eff
+  have d2 := eff.dry d0 (by rw [f0.tk]; exact htk) ((f0.pendIff j).mpr hp) (by rw [f0.next]; exact hlt)
+    (fun c hc hpc hpp => by
+      rw [f0.next] at hc; rw [f0.par] at hpc; rw [f0.pendIff] at hpp; rw [f0.ef]; exact hk c hc hpc hpp)
+  rw [d2.tw j]
+  simp only [List.foldl_nil]
+  rw [finalize_nil p s2 j d2.pj]
+  exact d2
+
+
+/-! ## part 8: every state of a dry run satisfies `DryTok` -/
+
+theorem head_facts {s : S} (e : Ev) (rest : List Ev) (hq : s.queue = e :: rest) (hd : DryTok s none) :
+    tk (tl s) (evJob e) = 0 ∧ pend s (evJob e) ∧ evJob e < s.next := by
+  have hm : e ∈ s.queue := by rw [hq]; simp
+  have h1 := tk_pos_of_mem hm
+  obtain ⟨a, b, c⟩ := hd.tok (evJob e)
+  have h2 := tk_tl s e rest hq (evJob e)
+  simp only [if_true] at h2
+  refine ⟨by omega, ?_, ?_⟩
+  · by_cases hp : pend s (evJob e)
+    · exact hp
+    · have := b hp; omega
+  · by_cases hlt : evJob e < s.next
+    · exact hlt
+    · have := c (Nat.le_of_not_lt hlt); omega
+
+theorem pop_dryTok (p : Prog) (hdr : p.dryrun = true) (s : S) (hinv : Inv p s) (hd : DryTok s none) :
+    DryTok (pop p s) none := by
+  unfold pop
+  split
+  · exact hd
+  · rename_i e rest hq
+    rw [tl_eq s e rest hq]
+    have dt := dry_tl s e rest hq hd
+    obtain ⟨htk, hp, hlt⟩ := head_facts e rest hq hd
+    obtain ⟨hpl, hholds⟩ := hinv.core.dry hdr
+    cases e with
+    | exec j =>
+      have hnk := hd.pre j (Or.inl (by rw [hq]; simp))
+      exact execJob_dry p hdr (tl s) j dt hpl htk hp hlt hnk
+    | done j f =>
+      have hnk := hd.pre j (Or.inr ⟨f, by rw [hq]; simp⟩)
+      exact doneJob_dry p (tl s) j f dt (hholds j) htk hp hlt hnk
+    | resolve j =>
+      have hk := hd.rk j (Or.inr (by rw [hq]; simp))
+      exact resolveJob_dry p (tl s) j dt htk hp hlt hk
+    | reject j =>
+      refine rejectJob_dry p (tl s) j dt (hholds j) htk hp hlt ?_
+      intro c hc hpc hpp
+      by_cases he : (s.jobs j).evalFailed = true
+      · exact he
+      · have := (hd.par j c hc hpc hpp (by simpa using he)).1
+        have h1 := tk_pos_of_mem (s := s) (e := Ev.reject j) (by rw [hq]; simp)
+        simp only [evJob] at h1
+        omega
+
+theorem dryTok_init : DryTok init none := by
+  have hj : ∀ j, (init.jobs j).status = Status.pending ∧ (init.jobs j).twins = [] ∧ (init.jobs j).evalFailed = false ∧
+      (init.jobs j).waiting = 0 ∧ (init.jobs j).parent = none := by
+    intro j; simp only [init]; split <;> exact ⟨rfl, rfl, rfl, rfl, rfl⟩
+  have htk : ∀ j, tk init j = if j = 0 then 1 else 0 := by
+    intro j; unfold tk; simp only [init, List.countP_cons, List.countP_nil, evJob, beq_iff_eq]
+    by_cases h : j = 0
+    · subst h; simp
+    · have : ¬ 0 = j := fun e => h e.symm
+      simp [h, this]
+  refine ⟨rfl, fun i => (hj i).2.1, ?_, ?_, ?_, ?_, ?_, ?_, ?_⟩
+  · intro j
+    rw [htk]
+    refine ⟨by split <;> omega, fun h => absurd (hj j).1 h, fun h => ?_⟩
+    have h1 : (1 : Nat) ≤ j := h
+    have : j ≠ 0 := by intro e; rw [e] at h1; exact absurd h1 (by decide)
+    simp [this]
+  · intro j c _ hp; rw [(hj c).2.2.2.2] at hp; simp at hp
+  · intro j _ c _ hp; rw [(hj c).2.2.2.2] at hp; simp at hp
+  · intro j c _ hp; rw [(hj c).2.2.2.2] at hp; simp at hp
+  · intro j _ _
+    have : cntPend init j = 0 := by
+      apply cntPend_zero_of_noKids
+      intro c _ hp; rw [(hj c).2.2.2.2] at hp; simp at hp
+    rw [this]; exact Nat.zero_le _
+  · intro j _ c _ hp; rw [(hj c).2.2.2.2] at hp; simp at hp
+  · refine ⟨(hj 0).2.2.2.2, ?_⟩
+    intro c h0 hc
+    have : c < 1 := hc
+    omega
+
+theorem reachable_dryTok (p : Prog) (hdr : p.dryrun = true) (s : S) (h : Reachable p s) : DryTok s none := by
+  induction h with
+  | init => exact dryTok_init
+  | step hr hs ih =>
+    cases hs with
+    | pop _ _ => exact pop_dryTok p hdr _ (reachable_inv p _ hr) ih
+    | complete j _ hi =>
+      rw [(reachable_dry p hdr _ hr).infl j] at hi; exact absurd hi (by simp)
+
+
+/-! ## part 9: a job that took the miss exit never resolves -/
+
+/-- `m` is stuck: created, not resolved, and nothing can make it progress (a `reject` may be queued) -/
+structure NR (s : S) (m : JobId) : Prop where
+  lt : m < s.next
+  st : (s.jobs m).status ≠ Status.resolved
+  ev : ∀ e, e ∈ s.queue → evJob e = m → e = Ev.reject m
+  nk : noKids s m
+
+theorem nr_fq {s s' : S} {m : JobId} (h : Fq s s') (hn : NR s m) : NR s' m :=
+  ⟨by rw [h.next]; exact hn.lt, by rw [h.st]; exact hn.st, by rw [h.queue]; exact hn.ev, (h.noKids m).mpr hn.nk⟩
+
+theorem nr_tl {s : S} {m : JobId} (hn : NR s m) : NR (tl s) m :=
+  ⟨hn.lt, hn.st, fun e he => hn.ev e (List.mem_of_mem_tail he), hn.nk⟩
+
+theorem nr_enqueue {s : S} {m : JobId} (e : Ev) (hn : NR s m) (he : evJob e ≠ m ∨ e = Ev.reject m) :
+    NR (enqueue s e) m := by
+  refine ⟨hn.lt, hn.st, ?_, hn.nk⟩
+  intro e' hm hj
+  rcases List.mem_append.mp hm with a | a
+  · exact hn.ev e' a hj
+  · have : e' = e := List.mem_singleton.mp a
+    subst this
+    rcases he with b | b
+    · exact absurd hj b
+    · exact b
+
+theorem nr_spawnOne {s : S} {m j : JobId} (c : SpecId) (hn : NR s m) (hjm : j ≠ m) : NR (spawnOne s j c) m := by
+  have hmn : m ≠ s.next := Nat.ne_of_lt hn.lt
+  refine ⟨Nat.lt_succ_of_lt hn.lt, by rw [spawnOne_jobs_ne s j c m hmn]; exact hn.st, ?_, ?_⟩
+  · intro e hm hj
+    rcases List.mem_append.mp hm with a | a
+    · exact hn.ev e a hj
+    · have : e = Ev.exec s.next := List.mem_singleton.mp a
+      subst this
+      exact absurd hj.symm hmn
+  · intro c' hc' hp
+    by_cases hcn : c' = s.next
+    · subst hcn; rw [spawnOne_jobs_new] at hp; simp at hp; exact hjm hp
+    · rw [spawnOne_jobs_ne s j c c' hcn] at hp
+      have : c' < s.next + 1 := hc'
+      exact hn.nk c' (by omega) hp
+
+theorem nr_spawnFold {m j : JobId} (cs : List SpecId) (s : S) (hn : NR s m) (hjm : j ≠ m) :
+    NR (cs.foldl (fun s c => spawnOne s j c) s) m := by
+  induction cs generalizing s with
+  | nil => exact hn
+  | cons c cs ih => exact ih _ (nr_spawnOne c hn hjm)
+
+theorem nr_resEff {s s' : S} {m j : JobId} (h : ResEff s s' j) (hn : NR s m) (hjm : j ≠ m) (hlt : j < s.next) :
+    NR s' m := by
+  refine ⟨by rw [h.next]; exact hn.lt, ?_, ?_, ?_⟩
+  · rw [h.st]; have : m ≠ j := fun e => hjm e.symm
+    simp only [this, if_false]; exact hn.st
+  · intro e hm hj
+    rcases h.queue with q | ⟨par, q1, _, _, q⟩
+    · rw [q] at hm; exact hn.ev e hm hj
+    · rw [q] at hm
+      rcases List.mem_append.mp hm with a | a
+      · exact hn.ev e a hj
+      · have : e = Ev.resolve par := List.mem_singleton.mp a
+        subst this
+        exact absurd (hj ▸ q1) (hn.nk j hlt)
+  · intro c hc hp
+    rw [h.next] at hc; rw [h.par] at hp; exact hn.nk c hc hp
+
+theorem nr_rejEff {s s' : S} {m j : JobId} (h : RejEff s s' j) (hn : NR s m) : NR s' m := by
+  refine ⟨by rw [h.next]; exact hn.lt, ?_, ?_, ?_⟩
+  · rw [h.st]; split
+    · simp
+    · exact hn.st
+  · intro e hm hj
+    rcases h.queue with q | ⟨par, _, _, q⟩
+    · rw [q] at hm; exact hn.ev e hm hj
+    · rw [q] at hm
+      rcases List.mem_append.mp hm with a | a
+      · exact hn.ev e a hj
+      · have : e = Ev.reject par := List.mem_singleton.mp a
+        subst this
+        simp only [evJob] at hj; rw [hj]
+  · intro c hc hp
+    rw [h.next] at hc; rw [h.par] at hp; exact hn.nk c hc hp
+
+
+/-! ## part 10: stuck jobs stay stuck -/
+
+theorem nr_execJob (p : Prog) (hdr : p.dryrun = true) (s : S) (j m : JobId) (hd : DryTok s none)
+    (hpl : s.pendingLimits = []) (hn : NR s m) (hjm : j ≠ m) : NR (execJob p s j) m := by
+  unfold execJob
+  dsimp only
+  have hnone : (if optedIn (spec p s j) = true then lookupPending s ((spec p s j).key, (spec p s j).ctx) else none) = none := by
+    split
+    · exact lookupPending_nil s _ hd.pj
+    · rfl
+  rw [hnone]
+  dsimp only
+  have hpl1 : (setJob s j fun js => { js with wasCached := true }).pendingLimits = [] := hpl
+  have hc : ∀ ev, evJob ev = j →
+      NR (enqueue (checkPending p (setJob s j fun js => { js with wasCached := true })) ev) m := by
+    intro ev hev
+    rw [checkPending_nil p _ hpl1]
+    exact nr_enqueue ev (nr_fq (fq_cached s j) hn) (Or.inl (by rw [hev]; exact hjm))
+  split
+  · rename_i isErr _
+    exact hc _ (by cases isErr <;> rfl)
+  · exact hc _ rfl
+  · exact hc _ rfl
+  · simp only [hdr, Bool.not_true, Bool.false_and, Bool.false_eq_true, if_false, if_true]
+    split
+    · exact nr_enqueue _ hn (Or.inl hjm)
+    · exact hn
+
+theorem nr_doneJob (p : Prog) (s : S) (j m : JobId) (f : Bool) (hholds : s.holds j = false) (hn : NR s m)
+    (hjm : j ≠ m) : NR (doneJob p s j f) m := by
+  rw [doneJob_eq, releaseIf_dry p s j hholds]
+  unfold doneRest
+  have f1 : Fq s (if (!(s.jobs j).wasCached && (spec p s j).prov) = true then
+      { s with evalTable := (spec p s j).key :: s.evalTable } else s) := by
+    split
+    · exact fq_fields s s.cse _
+    · exact Fq.refl s
+  generalize (if (!(s.jobs j).wasCached && (spec p s j).prov) = true then
+      { s with evalTable := (spec p s j).key :: s.evalTable } else s) = s2 at f1
+  have n2 := nr_fq f1 hn
+  dsimp only
+  split
+  · exact nr_enqueue _ n2 (Or.inl hjm)
+  · unfold spawn
+    dsimp only
+    have n3 := nr_spawnFold (spec p s2 j).children s2 n2 hjm
+    have n4 := nr_fq (fq_setWaiting _ j (spec p s2 j).children.length) n3
+    split
+    · exact nr_enqueue _ n4 (Or.inl hjm)
+    · exact n4
+
+theorem nr_resolveJob (p : Prog) (s : S) (j m : JobId) (hd : DryTok s none) (hn : NR s m) (hjm : j ≠ m)
+    (hlt : j < s.next) : NR (resolveJob p s j) m := by
+  unfold resolveJob
+  dsimp only
+  have f0 := fq_record p s j false
+  generalize record p s j false = s0 at f0
+  have eff := resEff s0 j
+  generalize (notifyParentResolved (setJob s0 j fun js => { js with status := Status.resolved }) j) = s2 at eff
+  have n2 := nr_resEff eff (nr_fq f0 hn) hjm (by rw [f0.next]; exact hlt)
+  have htw : (s2.jobs j).twins = [] := by rw [eff.tw, f0.tw]; exact hd.tw j
+  have hpj : s2.pendingJobs = [] := by rw [eff.pj, f0.pj]; exact hd.pj
+  rw [htw]
+  simp only [List.foldl_nil]
+  rw [finalize_nil p s2 j hpj]
+  exact n2
+
+theorem nr_rejectJob (p : Prog) (s : S) (j m : JobId) (hd : DryTok s none) (hholds : s.holds j = false)
+    (hn : NR s m) : NR (rejectJob p s j) m := by
+  rw [rejectJob_eq, releaseIf_dry p s j hholds]
+  unfold rejectRest
+  dsimp only
+  have f0 := fq_record p s j true
+  generalize record p s j true = s0 at f0
+  have eff := rejEff s0 j
+  generalize (notifyParentRejected (setJob s0 j fun js => { js with status := Status.rejected }) j) = s2 at eff
+  have n2 := nr_rejEff eff (nr_fq f0 hn)
+  have htw : (s2.jobs j).twins = [] := by rw [eff.tw, f0.tw]; exact hd.tw j
+  have hpj : s2.pendingJobs = [] := by rw [eff.pj, f0.pj]; exact hd.pj
+  rw [htw]
+  simp only [List.foldl_nil]
+  rw [finalize_nil p s2 j hpj]
+  exact n2
+
+theorem nr_pop (p : Prog) (hdr : p.dryrun = true) (s : S) (hinv : Inv p s) (hd : DryTok s none) (m : JobId)
+    (hn : NR s m) : NR (pop p s) m := by
+  unfold pop
+  split
+  · exact hn
+  · rename_i e rest hq
+    rw [tl_eq s e rest hq]
+    have dt := dry_tl s e rest hq hd
+    have nt := nr_tl (s := s) hn
+    obtain ⟨hpl, hholds⟩ := hinv.core.dry hdr
+    have hm : e ∈ s.queue := by rw [hq]; simp
+    cases e with
+    | exec j =>
+      have hjm : j ≠ m := by intro e; have := hn.ev _ hm e; simp at this
+      exact nr_execJob p hdr (tl s) j m dt hpl nt hjm
+    | done j f =>
+      have hjm : j ≠ m := by intro e; have := hn.ev _ hm e; simp at this
+      exact nr_doneJob p (tl s) j m f (hholds j) nt hjm
+    | resolve j =>
+      have hjm : j ≠ m := by intro e; have := hn.ev _ hm e; simp at this
+      exact nr_resolveJob p (tl s) j m dt nt hjm (head_facts _ rest hq hd).2.2
+    | reject j => exact nr_rejectJob p (tl s) j m dt (hholds j) nt
+
+
+/-! ## part 11: a miss blocks the root -/
+
+theorem miss_NR (p : Prog) (hdr : p.dryrun = true) (s : S) (hd : DryTok s none)
+    (hmiss : missAtHead p s = true) : ∃ m, NR (pop p s) m := by
+  unfold missAtHead at hmiss
+  cases hq : s.queue with
+  | nil => rw [hq] at hmiss; simp at hmiss
+  | cons e rest =>
+    rw [hq] at hmiss
+    cases e with
+    | done j f => simp at hmiss
+    | reject j => simp at hmiss
+    | resolve j => simp at hmiss
+    | exec j =>
+      simp only [Bool.and_eq_true, beq_iff_eq] at hmiss
+      obtain ⟨h1, h2⟩ := hmiss
+      refine ⟨j, ?_⟩
+      have hf := head_facts _ rest hq hd
+      simp only [evJob] at hf
+      obtain ⟨htk, hp, hlt⟩ := hf
+      have hnk := hd.pre j (Or.inl (by rw [hq]; simp))
+      have nt : NR (tl s) j := by
+        refine ⟨hlt, ?_, ?_, hnk⟩
+        · unfold pend at hp; show (s.jobs j).status ≠ _; rw [hp]; simp
+        · intro e he hj
+          exact absurd he (not_mem_of_tk_zero htk hj)
+      unfold pop
+      rw [hq]
+      dsimp only
+      rw [tl_eq s _ rest hq]
+      show NR (execJob p (tl s) j) j
+      unfold execJob
+      dsimp only
+      have h1' : (if optedIn (spec p (tl s) j) = true then
+          lookupPending (tl s) ((spec p (tl s) j).key, (spec p (tl s) j).ctx) else none) = none := by
+        have : (if optedIn (spec p s j) = true then lookupPending s ((spec p s j).key, (spec p s j).ctx) else none) = none := by
+          cases h : (if optedIn (spec p s j) = true then lookupPending s ((spec p s j).key, (spec p s j).ctx) else none) with
+          | none => rfl
+          | some t => rw [h] at h1; simp at h1
+        exact this
+      rw [h1']
+      dsimp only
+      have h2' : cacheLookup (tl s) (spec p (tl s) j) = Hit.miss := h2
+      rw [h2']
+      simp only [hdr, Bool.not_true, Bool.false_and, Bool.false_eq_true, if_false, if_true]
+      split
+      · exact nr_enqueue _ nt (Or.inr rfl)
+      · exact nt
+
+theorem nr_root_unresolved {s : S} (hd : DryTok s none) :
+    ∀ m, m < s.next → (s.jobs m).status ≠ Status.resolved → (s.jobs 0).status ≠ Status.resolved := by
+  intro m
+  induction m using Nat.strongRecOn with
+  | _ m ih =>
+    intro hlt hst
+    by_cases h0 : m = 0
+    · subst h0; exact hst
+    · obtain ⟨par, p1, p2⟩ := hd.chain.2 m (Nat.pos_of_ne_zero h0) hlt
+      refine ih par p1 (Nat.lt_trans p1 hlt) ?_
+      intro hr
+      exact hst (hd.rk par (Or.inl hr) m hlt p2)
+
+theorem popN_succ (p : Prog) (n : Nat) (s : S) : popN p (n + 1) s = pop p (popN p n s) := by
+  induction n generalizing s with
+  | zero => rfl
+  | succ n ih => simp only [popN] at ih ⊢; rw [ih]
+
+theorem reachable_popN (p : Prog) (n : Nat) (h : ∀ k, k < n → (popN p k init).finished = false) :
+    Reachable p (popN p n init) := by
+  induction n with
+  | zero => exact Reachable.init
+  | succ n ih =>
+    have hr := ih (fun k hk => h k (Nat.lt_succ_of_lt hk))
+    rw [popN_succ]
+    by_cases hq : (popN p n init).queue = []
+    · have : pop p (popN p n init) = popN p n init := by unfold pop; rw [hq]
+      rw [this]; exact hr
+    · exact Reachable.step hr (Step.pop _ (h n (Nat.lt_succ_self n)) hq)
+
+/-- In a dry run that has not finished before event `n`: if the root is resolved after `n` events then no job
+took the miss exit during these events. -/
+theorem no_miss_of_root_resolved (p : Prog) (hdr : p.dryrun = true) (n : Nat)
+    (hfin : ∀ k, k < n → (popN p k init).finished = false)
+    (hres : ((popN p n init).jobs 0).status = Status.resolved) :
+    ∀ k, k < n → missAtHead p (popN p k init) = false := by
+  intro k hk
+  by_cases hm : missAtHead p (popN p k init) = true
+  · exfalso
+    have hreach : ∀ i, i ≤ n → Reachable p (popN p i init) :=
+      fun i hi => reachable_popN p i (fun k' hk' => hfin k' (Nat.lt_of_lt_of_le hk' hi))
+    have hdry : ∀ i, i ≤ n → DryTok (popN p i init) none := fun i hi => reachable_dryTok p hdr _ (hreach i hi)
+    obtain ⟨m, hn⟩ := miss_NR p hdr _ (hdry k (Nat.le_of_lt hk)) hm
+    rw [← popN_succ] at hn
+    -- the stuck job stays stuck up to event `n`
+    have hstay : ∀ d, k + 1 + d ≤ n → NR (popN p (k + 1 + d) init) m := by
+      intro d
+      induction d with
+      | zero => intro _; exact hn
+      | succ d ih =>
+        intro hle
+        have h1 := ih (by omega)
+        have : k + 1 + (d + 1) = (k + 1 + d) + 1 := by omega
+        rw [this, popN_succ]
+        exact nr_pop p hdr _ (reachable_inv p _ (hreach _ (by omega))) (hdry _ (by omega)) m h1
+    have hfinal := hstay (n - (k + 1)) (by omega)
+    have : k + 1 + (n - (k + 1)) = n := by omega
+    rw [this] at hfinal
+    exact nr_root_unresolved (hdry n (Nat.le_refl n)) m hfinal.lt hfinal.st hres
+  · simpa using hm
+
 end RedunModel.SchedCore
